@@ -123,9 +123,14 @@ def explore(mod, tier, seed, shard, examples_override=None, no_shrink=False):
   shrink_budget = budget.get('shrink_seconds', 45 if tier == 'quick' else 240)
   wall_budget = budget.get('seconds')
 
+  slow = float(os.environ.get('VERIF_SLOW', '0') or 0)
+
   def evaluate(plan):
+    t_case = time.perf_counter()
     try:
       out = mod.execute(plan)
+      if slow and time.perf_counter() - t_case > slow:
+        sys.stderr.write('SLOW %.1fs %s\n' % (time.perf_counter() - t_case, json.dumps(plan, default=repr)[:3000]))
     except Violation as v:
       if v.key in known:
         rec.known_hits[v.key] += 1
